@@ -967,7 +967,7 @@ def check_files_read_pieces(ctx, rep, rng, tier):
         return 0
     model = ctx["model"]
     cnt = 0
-    for i in _iters(120 if tier == "quick" else 1500, 240):
+    for i in _iters(120 if tier == "quick" else 800, 150):
         st = rnd_filesinfo(rng)
         n = len(st[0])
         # --- names
@@ -1055,7 +1055,7 @@ def check_files_read(ctx, rep, rng, tier):
     inputs = [b"", b"\x00", b"\x00\x00", b"\x01\x00", b"\x02\x0e\x01\x80\x00", b"\x02\x0e\x01\xc0\x0f\x01\x80\x00rest", b"\x01\x19\x02\x00\x00\x00",
               b"\x01\x11\x05\x00\x61\x00\x00\x00\x00", b"\x01\x11\x05\x01\x61\x00\x00\x00\x00", b"\x01\x18\x01\x00\x00", b"\x01\x63\x00\x00",
               b"\x01\x15\x06\x01\x00\x20\x00\x00\x00\x00", b"\x01\x14\x0a\x01\x00\x01\x02\x03\x04\x05\x06\x07\x08\x00", b"\x01\x19\x05\x00"]
-    for i in _iters(150 if tier == "quick" else 1200, 240):
+    for i in _iters(150 if tier == "quick" else 600, 120):
         st = rnd_filesinfo(rng)
         for e in st[0]:
             e[1] = [rng.random() < 0.5] if e[0] and rng.random() < 0.7 else []
@@ -1278,6 +1278,8 @@ def _run(ctx, rep, rng, tier, parts, label):
         return
     prims.check_prims(ctx, rep)
     total = 0
+    import time
+    t0 = time.time()
     for part in parts:
         try:
             total += part(ctx, rep, rng, tier)
@@ -1286,6 +1288,7 @@ def _run(ctx, rep, rng, tier, parts, label):
                           {"kind": "exception", "part": part.__name__, "trace": traceback.format_exc()[-1500:]},
                           concrete=False, match_keys={"kind": "exception", "part": part.__name__})
     rep.extra["translation_validation_cases_" + label] = total
+    rep.extra["translation_validation_seconds_" + label] = round(time.time() - t0, 1)
     rep.count(("translation", label, total), nontrivial=True, n=total)
 
 
